@@ -230,6 +230,12 @@ def shape_faults(doc):
     d = copy.deepcopy(d)
     d["pattern"] = pat + [{"@undefined": {"times": 1}}]
     yield "undefined_macro_key", d
+    # a reference that is a near miss of a defined macro / not an identifier is still an undefined reference
+    for nm, ref in (("hyphen", "@load-store"), ("dot", "@load.store"), ("digit_first", "@2nd")):
+        d = copy.deepcopy(doc)
+        d["macros"] = list(d.get("macros", [])) + [{"name": "@load_store", "pattern": "mov"}]
+        d["pattern"] = [ref] + pat
+        yield f"undefined_macro_odd_spelling_{nm}", d
     # undefined macro inside the body of the last (only) macro, as a plain list element / operand
     d = copy.deepcopy(doc)
     d["macros"] = list(d.get("macros", [])) + [{"name": "@wrap", "pattern": [{"$or": [{"xor": ["@undefined", "@undefined"]}, "nop"]}]}]
